@@ -791,3 +791,79 @@ func abortBlocks(s *State, tx int) bool {
 	}
 	return false
 }
+
+// monitorInter is the state-based part of the C02 and C10 monitors, valid when two invocations are
+// interleaved inside one step (no attribution of writes or requests to the step's actor).
+var iresRe = regexp.MustCompile(` ires=\S*/([0-9.+]+) `)
+
+func monitorInter(c fw.Case, outs []string) []string {
+	var fails []string
+	lastMerge := map[int]int{}
+	for _, st := range steps(c, outs) {
+		// the state right after the pre-empting invocation: cursors and terms must be monotone from the
+		// state before the step to it, and from it to the state after the step
+		if m := iresRe.FindStringSubmatch(st.raw); m != nil {
+			for _, part := range strings.Split(m[1], "+") {
+				f := strings.Split(part, ".")
+				if len(f) != 6 {
+					continue
+				}
+				t := atoi(f[0])
+				mid := [5]int{atoi(f[1]), atoi(f[2]), atoi(f[3]), atoi(f[4]), atoi(f[5])}
+				names := []string{"committed index", "applied index", "", "mastership term", "applied term"}
+				if ca := st.before.Cfg[t]; ca != nil {
+					bef := [5]int{ca.Committed, ca.Applied, ca.Master, ca.Term, ca.AppliedTerm}
+					for i, n := range names {
+						if n != "" && mid[i] < bef[i] {
+							fails = append(fails, fmt.Sprintf("%s of target %d went back %d -> %d in the pre-empting invocation of %q", n, t, bef[i], mid[i], st.line))
+						}
+					}
+				}
+				if cb := st.after.Cfg[t]; cb != nil {
+					aft := [5]int{cb.Committed, cb.Applied, cb.Master, cb.Term, cb.AppliedTerm}
+					for i, n := range names {
+						if n != "" && aft[i] < mid[i] {
+							fails = append(fails, fmt.Sprintf("%s of target %d went back %d -> %d when the pre-empted invocation %q went on with its stale snapshot", n, t, mid[i], aft[i], st.line))
+						}
+					}
+					if aft[3] == mid[3] && aft[2] != mid[2] && mid[2] != 0 && aft[2] != 0 {
+						fails = append(fails, fmt.Sprintf("term: target %d has master %d and then master %d in the same term %d (%q)", t, mid[2], aft[2], aft[3], st.line))
+					}
+				}
+			}
+		}
+		for t, cb := range st.after.Cfg {
+			ca := st.before.Cfg[t]
+			if ca == nil {
+				continue
+			}
+			if cb.Committed < ca.Committed {
+				fails = append(fails, fmt.Sprintf("cursor: committed index of target %d went back %d -> %d at %q", t, ca.Committed, cb.Committed, st.line))
+			}
+			if cb.Applied < ca.Applied {
+				fails = append(fails, fmt.Sprintf("cursor: applied index of target %d went back %d -> %d at %q", t, ca.Applied, cb.Applied, st.line))
+			}
+			if cb.Committed != ca.Committed {
+				if p := st.after.Prop[fmt.Sprintf("%d-%d", t, cb.Committed)]; p != nil && p.Commit != "-" {
+					if cb.Committed <= lastMerge[t] {
+						fails = append(fails, fmt.Sprintf("merge-order: target %d merged %d after %d", t, cb.Committed, lastMerge[t]))
+					}
+					lastMerge[t] = cb.Committed
+				}
+			}
+			if cb.Term < ca.Term {
+				fails = append(fails, fmt.Sprintf("term: the mastership term of target %d went back %d -> %d at %q", t, ca.Term, cb.Term, st.line))
+			}
+			if cb.AppliedTerm < ca.AppliedTerm {
+				fails = append(fails, fmt.Sprintf("term: the applied term of target %d went back %d -> %d at %q", t, ca.AppliedTerm, cb.AppliedTerm, st.line))
+			}
+			if cb.Master != ca.Master && cb.Master != 0 && cb.Term != ca.Term+1 {
+				fails = append(fails, fmt.Sprintf("term: target %d master %d -> %d but term %d -> %d at %q", t, ca.Master, cb.Master, ca.Term, cb.Term, st.line))
+			}
+			if cb.AppliedTerm > cb.Term {
+				fails = append(fails, fmt.Sprintf("term: target %d is synchronized in term %d which is ahead of its mastership term %d at %q", t, cb.AppliedTerm, cb.Term, st.line))
+			}
+		}
+	}
+	return fails
+}
